@@ -105,8 +105,15 @@ def _split_lines(region_str):
     lines : list of str
         A list of strings.
     """
-    return [line_.strip() for line in region_str.split('\n')
-            for line_ in _split_semicolon(line)]
+    lines = []
+    for line in region_str.split('\n'):
+        # a comment line can contain anything (including semicolons)
+        if (line.lstrip().startswith('#')
+                and not line.lstrip().startswith(('# text(',
+                                                  '# composite('))):
+            continue
+        lines.extend(line_.strip() for line_ in _split_semicolon(line))
+    return lines
 
 
 def _parse_raw_data(region_str):
